@@ -176,6 +176,72 @@ theorem auto_merge_converges_partial (pre a b : LogSeq) (x : Rec) (ha : a ≠ []
   rw [htake]
   simp
 
+/-- C04/5.  The device's events since the ancestor are all on the server already (an earlier
+merge of this device's events was pushed by ANOTHER device's sync, interleaved with others):
+one sync call rewinds the device to the ancestor and applies the server's suffix — the device
+becomes equal to the server, the server is untouched. -/
+theorem auto_merge_subset_rewinds (pre a b : LogSeq) (x : Rec) (ha : a ≠ []) (hb : b ≠ [])
+    (hl : C08.Atoms (commits (pre ++ x :: a))) (hr : C08.Atoms (commits (pre ++ x :: b)))
+    (hndl : (commits (pre ++ x :: a)).Nodup) (hndr : (commits (pre ++ x :: b)).Nodup)
+    (hdis : ∀ (j : Nat) (c : H), (commits a)[j]? = some c → (commits b)[j]? ≠ some c)
+    (hsub : ∀ y ∈ a, y.commit ∈ commits b) :
+    syncLog (pre ++ x :: a) (pre ++ x :: b) = (pre ++ x :: b, pre ++ x :: b, .rewound) := by
+  have hxs : ∀ (s : LogSeq), (commits (pre ++ x :: s)).Nodup → ∀ y ∈ s, y.commit ≠ x.commit := by
+    intro s hs y hy e
+    have h1 : (commits pre ++ x.commit :: commits s).Nodup := by simpa [commits] using hs
+    have h2 := (List.nodup_cons.mp (List.nodup_append.mp h1).2.1).1
+    apply h2; rw [← e]; exact List.mem_map_of_mem hy
+  have hxa := hxs a hndl
+  have hxb := hxs b hndr
+  obtain ⟨a0, at_, rfl⟩ : ∃ a0 at_, a = a0 :: at_ := by
+    cases a with
+    | nil => exact absurd rfl ha
+    | cons a0 at_ => exact ⟨a0, at_, rfl⟩
+  obtain ⟨b0, bt, rfl⟩ : ∃ b0 bt, b = b0 :: bt := by
+    cases b with
+    | nil => exact absurd rfl hb
+    | cons b0 bt => exact ⟨b0, bt, rfl⟩
+  have h00 : a0.commit ≠ b0.commit := by
+    intro e
+    exact hdis 0 a0.commit (by simp [commits]) (by simp [commits, e])
+  have hsplit : ∀ t : LogSeq, commits (pre ++ x :: t) = commits (pre ++ [x]) ++ commits t := by
+    intro t; simp [commits]
+  have hnpre : ∀ (s0 t0 : Rec) (s t : LogSeq), s0.commit ≠ t0.commit →
+      ¬ commits (pre ++ x :: s0 :: s) <+: commits (pre ++ x :: t0 :: t) := by
+    intro s0 t0 s t hst ⟨w, hw⟩
+    rw [hsplit (s0 :: s), hsplit (t0 :: t), List.append_assoc] at hw
+    have hw2 := List.append_cancel_left hw
+    simp only [commits, List.map_cons, List.cons_append, List.cons.injEq] at hw2
+    exact hst hw2.1
+  have hne : commits (pre ++ x :: a0 :: at_) ≠ commits (pre ++ x :: b0 :: bt) := by
+    intro e
+    exact hnpre a0 b0 at_ bt h00 ⟨[], by rw [e]; simp⟩
+  have hnp1 := hnpre b0 a0 bt at_ (Ne.symm h00)
+  have hnp2 := hnpre a0 b0 at_ bt h00
+  unfold syncLog
+  rw [if_neg hne]
+  rw [offer_compare_of_not_prefix _ _ hl hr (by simp) (by simp) hne hnp1]
+  simp only
+  rw [offer_compare_of_not_prefix _ _ hr hl (by simp) (by simp) (Ne.symm hne) hnp2]
+  simp only
+  obtain ⟨cp, _, hanc⟩ := scan_finds_ancestor pre (a0 :: at_) (b0 :: bt) x hl hr hdis
+  rw [hanc]
+  simp only
+  rw [after_unique pre (a0 :: at_) x hxa, after_unique pre (b0 :: bt) x hxb,
+    upTo_unique pre (a0 :: at_) x hxa, upTo_unique pre (b0 :: bt) x hxb]
+  simp only
+  have hmp : mergePatches (a0 :: at_) (b0 :: bt) = .rewindLocal (b0 :: bt) :=
+    C05.subset_takes_remote _ _ (by
+      intro c hc
+      obtain ⟨y, hy, rfl⟩ := List.mem_map.mp hc
+      exact hsub y hy)
+  rw [hmp]
+  simp only
+  have htake : (pre ++ x :: a0 :: at_).take (pre.length + 1) = pre ++ [x] := by
+    rw [List.take_append]; simp [List.take_of_length_le]
+  rw [htake]
+  simp
+
 /-- Corollary: with pairwise distinct events everywhere the merged suffix is the stable
 timestamp-ordered union of both suffixes. -/
 theorem auto_merge_converges_distinct (pre a b : LogSeq) (x : Rec) (ha : a ≠ []) (hb : b ≠ [])
@@ -228,6 +294,315 @@ theorem auto_merge_converges_distinct (pre a b : LogSeq) (x : Rec) (ha : a ≠ [
     simp [notIn, this]
   have := auto_merge_converges_partial pre a b x ha hb hl hr hndl hndr hdis hnew
   rw [this, mergedSuffix, hfil]
+
+/-! ### composition over three replicas -/
+
+/-- an element's index in a sublist is at most its index in the (duplicate-free) list -/
+theorem sublist_index_le {α : Type} [DecidableEq α] {a l : List α} (h : a.Sublist l) (hn : l.Nodup)
+    (j i : Nat) (c : α) (hj : a[j]? = some c) (hi : l[i]? = some c) : j ≤ i := by
+  induction h generalizing j i with
+  | slnil => simp at hj
+  | @cons a' l' y hs ih =>
+    have hn' := (List.nodup_cons.mp hn).2
+    cases i with
+    | zero =>
+      simp at hi
+      subst hi
+      have : y ∈ l' := hs.subset (List.mem_of_getElem? hj)
+      exact absurd this (List.nodup_cons.mp hn).1
+    | succ i' =>
+      simp at hi
+      have := ih hn' j i' hj hi
+      omega
+  | @cons_cons a'' l'' y hs ih =>
+    have hn' := (List.nodup_cons.mp hn).2
+    cases j with
+    | zero => omega
+    | succ j' =>
+      simp at hj
+      cases i with
+      | zero =>
+        simp at hi
+        subst hi
+        have : y ∈ l'' := hs.subset (List.mem_of_getElem? hj)
+        exact absurd this (List.nodup_cons.mp hn).1
+      | succ i' =>
+        simp at hi
+        have := ih hn' j' i' hj hi
+        omega
+
+/-- if a sublist and the list hold the same element at the same index, they agree up to it -/
+theorem sublist_same_index_take {α : Type} [DecidableEq α] {a l : List α} (h : a.Sublist l) (hn : l.Nodup)
+    (j : Nat) (c : α) (hj : a[j]? = some c) (hi : l[j]? = some c) : a.take (j + 1) = l.take (j + 1) := by
+  induction h generalizing j with
+  | slnil => simp at hj
+  | @cons a' l' y hs ih =>
+    have hn' := (List.nodup_cons.mp hn).2
+    cases j with
+    | zero =>
+      simp at hi
+      subst hi
+      have : y ∈ l' := hs.subset (List.mem_of_getElem? hj)
+      exact absurd this (List.nodup_cons.mp hn).1
+    | succ j' =>
+      simp at hi
+      have := sublist_index_le hs hn' (j' + 1) j' c hj hi
+      omega
+  | @cons_cons a'' l'' y hs ih =>
+    have hn' := (List.nodup_cons.mp hn).2
+    cases j with
+    | zero => simp
+    | succ j' =>
+      simp at hj hi
+      simp [ih hn' j' hj hi]
+
+/-- after the first position where a sublist and the list differ, they differ at every position -/
+theorem sublist_positions_differ {α : Type} [DecidableEq α] {a l : List α} (h : a.Sublist l) (hn : l.Nodup)
+    (h0 : a.head? ≠ l.head? ∨ a = []) :
+    ∀ (j : Nat) (c : α), a[j]? = some c → l[j]? ≠ some c := by
+  intro j c hj hi
+  rcases h0 with h0 | h0
+  · have ht := sublist_same_index_take h hn j c hj hi
+    apply h0
+    cases a with
+    | nil => simp at hj
+    | cons x xs =>
+      cases l with
+      | nil => simp at hi
+      | cons y ys =>
+        simp only [List.take_succ_cons, List.cons.injEq] at ht
+        simp [ht.1]
+  · subst h0; simp at hj
+
+
+open C05 in
+theorem insert_sublist (r : Rec) (l : LogSeq) : l.Sublist (sortByTime.insertByTime' r l) := by
+  induction l with
+  | nil => simp [sortByTime.insertByTime']
+  | cons y ys ih =>
+    unfold sortByTime.insertByTime'
+    split
+    · exact List.Sublist.cons_cons y ih
+    · exact List.Sublist.cons r (List.Sublist.refl _)
+
+theorem sort_of_sorted (l : LogSeq) (h : C05.SortedT l) : sortByTime l = l := by
+  induction l with
+  | nil => rfl
+  | cons x xs ih =>
+    have hx := List.pairwise_cons.mp h
+    unfold sortByTime
+    rw [ih hx.2]
+    cases xs with
+    | nil => rfl
+    | cons y ys =>
+      unfold sortByTime.insertByTime'
+      have : ¬ y.time < x.time := by have := hx.1 y (by simp); omega
+      simp [this]
+
+/-- a device's own (time-ordered) events keep their order inside the merged suffix -/
+theorem sorted_sublist_of_merge (a b : LogSeq) (h : C05.SortedT a) : a.Sublist (sortByTime (b ++ a)) := by
+  induction b with
+  | nil => simp [sort_of_sorted a h]
+  | cons y ys ih =>
+    simp only [List.cons_append]
+    unfold sortByTime
+    exact ih.trans (insert_sublist y _)
+
+/-- two lists split at their first difference -/
+theorem split_first_difference {α : Type} [DecidableEq α] (a m : List α) :
+    ∃ p a' m', a = p ++ a' ∧ m = p ++ m' ∧ (a' = [] ∨ m' = [] ∨ a'.head? ≠ m'.head?) := by
+  induction a generalizing m with
+  | nil => exact ⟨[], [], m, rfl, rfl, Or.inl rfl⟩
+  | cons x xs ih =>
+    cases m with
+    | nil => exact ⟨[], x :: xs, [], rfl, rfl, Or.inr (Or.inl rfl)⟩
+    | cons y ys =>
+      by_cases e : x = y
+      · subst e
+        obtain ⟨p, a', m', h1, h2, h3⟩ := ih ys
+        exact ⟨x :: p, a', m', by simp [h1], by simp [h2], h3⟩
+      · exact ⟨[], x :: xs, y :: ys, rfl, rfl, Or.inr (Or.inr (by simp [e]))⟩
+
+
+theorem commits_sublist {a m : LogSeq} (h : a.Sublist m) : (commits a).Sublist (commits m) :=
+  List.Sublist.map _ h
+
+theorem atoms_of_subset {l l' : List H} (h : C08.Atoms l) (hs : ∀ x ∈ l', x ∈ l) : C08.Atoms l' :=
+  fun x hx => h x (hs x hx)
+
+theorem exists_snoc (l : LogSeq) (h : l ≠ []) : ∃ q y, l = q ++ [y] := by
+  induction l with
+  | nil => exact absurd rfl h
+  | cons z zs ih =>
+    cases zs with
+    | nil => exact ⟨[], z, rfl⟩
+    | cons w ws =>
+      obtain ⟨q, y, e⟩ := ih (by simp)
+      exact ⟨z :: q, y, by rw [e]; simp⟩
+
+/-- records of a log whose commits are pairwise distinct are determined by their commits -/
+theorem rec_eq_of_commit_eq {l : LogSeq} (hn : (commits l).Nodup) {r1 r2 : Rec} (h1 : r1 ∈ l) (h2 : r2 ∈ l)
+    (e : r1.commit = r2.commit) : r1 = r2 := by
+  induction l with
+  | nil => simp at h1
+  | cons z zs ih =>
+    have hz : (z.commit :: commits zs).Nodup := by simpa [commits] using hn
+    have hnz := (List.nodup_cons.mp hz).1
+    have hnt := (List.nodup_cons.mp hz).2
+    rcases List.mem_cons.mp h1 with e1 | e1 <;> rcases List.mem_cons.mp h2 with e2 | e2
+    · rw [e1, e2]
+    · subst e1; exact absurd (e ▸ List.mem_map_of_mem e2 : r1.commit ∈ commits zs) hnz
+    · subst e2; exact absurd (e ▸ List.mem_map_of_mem e1 : r2.commit ∈ commits zs) hnz
+    · exact ih hnt e1 e2
+
+/-- The device holds the ancestor prefix plus its own events `a`; the server holds the same
+prefix plus a longer suffix `M` that contains `a` in order (another device's sync merged
+them in).  One sync call makes the device equal to the server and leaves the server alone. -/
+theorem resync_after_foreign_merge (pre a M : LogSeq) (x : Rec) (ha : a ≠ []) (hlen : a.length < M.length)
+    (hsub : a.Sublist M)
+    (hatM : C08.Atoms (commits (pre ++ x :: M))) (hndM : (commits (pre ++ x :: M)).Nodup) :
+    ∃ o, syncLog (pre ++ x :: a) (pre ++ x :: M) = (pre ++ x :: M, pre ++ x :: M, o) := by
+  -- the device's log is a sublist of the server's
+  have hsubL : (pre ++ x :: a).Sublist (pre ++ x :: M) :=
+    List.Sublist.append (List.Sublist.refl _) (List.Sublist.cons_cons x hsub)
+  have hata : C08.Atoms (commits (pre ++ x :: a)) :=
+    atoms_of_subset hatM (fun y hy => (commits_sublist hsubL).subset hy)
+  have hnda : (commits (pre ++ x :: a)).Nodup := (commits_sublist hsubL).nodup hndM
+  obtain ⟨p, a', M', hae, hMe, hcase⟩ := split_first_difference a M
+  cases a' with
+  | nil =>
+    -- the device's log is a proper prefix of the server's: fast-forward pull
+    simp only [List.append_nil] at hae
+    subst hae
+    have hM' : M' ≠ [] := by
+      intro e; subst e; simp at hMe; subst hMe; omega
+    obtain ⟨q, y, hq⟩ := exists_snoc (pre ++ x :: a) (by simp)
+    have e1 : pre ++ x :: M = q ++ y :: M' := by
+      rw [hMe]
+      have : pre ++ x :: (a ++ M') = (pre ++ x :: a) ++ M' := by simp
+      rw [this, hq]; simp
+    refine ⟨.pulled, ?_⟩
+    rw [hq, e1]
+    apply fast_forward_pull_converges q M' y hM'
+    · rw [← e1]; exact hatM
+    · intro z hz e
+      rw [e1] at hndM
+      have h1 : (commits q ++ y.commit :: commits M').Nodup := by simpa [commits] using hndM
+      have h2 := (List.nodup_cons.mp (List.nodup_append.mp h1).2.1).1
+      apply h2; rw [← e]; exact List.mem_map_of_mem hz
+  | cons a0 at_ =>
+    cases M' with
+    | nil =>
+      -- the server cannot hold less than the device
+      exfalso
+      simp only [List.append_nil] at hMe
+      subst hMe
+      have := congrArg List.length hae
+      simp at this
+      omega
+    | cons m0 mt =>
+      -- they differ after a common part `p`: rewind and take the server's suffix
+      have h0 : a0 ≠ m0 := by
+        rcases hcase with h | h | h
+        · simp at h
+        · simp at h
+        · simpa using h
+      obtain ⟨q, y, hq⟩ := exists_snoc (pre ++ x :: p) (by simp)
+      have e1 : pre ++ x :: a = q ++ y :: (a0 :: at_) := by
+        rw [hae]
+        have : pre ++ x :: (p ++ a0 :: at_) = (pre ++ x :: p) ++ a0 :: at_ := by simp
+        rw [this, hq]; simp
+      have e2 : pre ++ x :: M = q ++ y :: (m0 :: mt) := by
+        rw [hMe]
+        have : pre ++ x :: (p ++ m0 :: mt) = (pre ++ x :: p) ++ m0 :: mt := by simp
+        rw [this, hq]; simp
+      have hsub' : (a0 :: at_).Sublist (m0 :: mt) := by
+        rw [hae, hMe] at hsub
+        exact (List.append_sublist_append_left p).mp hsub
+      have hndM' : (commits (m0 :: mt)).Nodup := by
+        rw [e2] at hndM
+        have h1 : (commits q ++ y.commit :: commits (m0 :: mt)).Nodup := by simpa [commits] using hndM
+        exact (List.nodup_cons.mp (List.nodup_append.mp h1).2.1).2
+      have hc0 : a0.commit ≠ m0.commit := by
+        intro e
+        have hin1 : a0 ∈ (m0 :: mt) := hsub'.subset (by simp)
+        exact h0 (rec_eq_of_commit_eq hndM' hin1 (by simp) e)
+      refine ⟨.rewound, ?_⟩
+      rw [e1, e2]
+      apply auto_merge_subset_rewinds q (a0 :: at_) (m0 :: mt) y (by simp) (by simp)
+      · rw [← e1]; exact hata
+      · rw [← e2]; exact hatM
+      · rw [← e1]; exact hnda
+      · rw [← e2]; exact hndM
+      · apply sublist_positions_differ (commits_sublist hsub') hndM'
+        left
+        simp [commits, hc0]
+      · intro z hz
+        exact List.mem_map_of_mem (hsub'.subset hz)
+
+
+/-- C04/6.  Three replicas, any timestamps: the server holds a prefix, device 1 has appended
+`a` (in time order, as a device's clock produces them), device 2 has appended `b`, all events
+distinct.  Device 1 syncs, device 2 syncs, device 1 syncs again: every call succeeds and all
+three replicas hold the shared prefix followed by the stable timestamp-ordered union of both
+suffixes.  (Composition of fast-forward, auto-merge and rewind-local; the third call is a
+fast-forward when all of `a` is older than `b`, a rewind otherwise.) -/
+theorem two_devices_three_syncs_converge (pre a b : LogSeq) (x : Rec) (ha : a ≠ []) (hb : b ≠ [])
+    (hat : C08.Atoms (commits (pre ++ x :: (a ++ b))))
+    (hnd : (commits (pre ++ x :: (a ++ b))).Nodup)
+    (hsa : C05.SortedT a) :
+    syncLog (pre ++ x :: a) (pre ++ [x]) = (pre ++ x :: a, pre ++ x :: a, .pushed) ∧
+    syncLog (pre ++ x :: b) (pre ++ x :: a) =
+      (pre ++ x :: sortByTime (b ++ a), pre ++ x :: sortByTime (b ++ a), .merged) ∧
+    ∃ o, syncLog (pre ++ x :: a) (pre ++ x :: sortByTime (b ++ a)) =
+      (pre ++ x :: sortByTime (b ++ a), pre ++ x :: sortByTime (b ++ a), o) := by
+  have hperm : (pre ++ x :: (b ++ a)).Perm (pre ++ x :: (a ++ b)) :=
+    List.Perm.append_left _ (List.Perm.cons _ List.perm_append_comm)
+  have hpermM : (pre ++ x :: sortByTime (b ++ a)).Perm (pre ++ x :: (a ++ b)) :=
+    (List.Perm.append_left _ (List.Perm.cons _ (C05.sort_perm (b ++ a)))).trans hperm
+  have cperm : ∀ {l l' : LogSeq}, l.Perm l' → (commits l).Perm (commits l') :=
+    fun h => List.Perm.map _ h
+  have hata : C08.Atoms (commits (pre ++ x :: a)) :=
+    atoms_of_subset hat (by
+      intro y hy
+      simp only [commits, List.map_append, List.map_cons, List.mem_append, List.mem_cons, List.mem_map] at hy ⊢
+      rcases hy with h | h | h
+      · exact Or.inl h
+      · exact Or.inr (Or.inl h)
+      · exact Or.inr (Or.inr (Or.inl h)))
+  have hatb : C08.Atoms (commits (pre ++ x :: b)) :=
+    atoms_of_subset hat (by
+      intro y hy
+      simp only [commits, List.map_append, List.map_cons, List.mem_append, List.mem_cons, List.mem_map] at hy ⊢
+      rcases hy with h | h | h
+      · exact Or.inl h
+      · exact Or.inr (Or.inl h)
+      · exact Or.inr (Or.inr (Or.inr h)))
+  have hxa : ∀ y ∈ a, y.commit ≠ x.commit := by
+    intro y hy e
+    have h1 : (commits pre ++ x.commit :: (commits a ++ commits b)).Nodup := by simpa [commits] using hnd
+    have h2 := (List.nodup_cons.mp (List.nodup_append.mp h1).2.1).1
+    apply h2; rw [← e]; exact List.mem_append_left _ (List.mem_map_of_mem hy)
+  refine ⟨fast_forward_push_converges pre a x ha hata hxa, ?_, ?_⟩
+  · exact auto_merge_converges_distinct pre b a x hb ha hatb hata ((cperm hperm).nodup_iff.mpr hnd)
+  · apply resync_after_foreign_merge pre a (sortByTime (b ++ a)) x ha
+    · have := (C05.sort_perm (b ++ a)).length_eq
+      rw [this, List.length_append]
+      cases b with
+      | nil => exact absurd rfl hb
+      | cons _ _ => simp
+    · exact sorted_sublist_of_merge a b hsa
+    · exact atoms_of_subset hat (fun y hy => (cperm hpermM).mem_iff.mp hy)
+    · exact (cperm hpermM).nodup_iff.mpr hnd
+
+private def p0 : Rec := { time := 1, commit := H.leaf [0], bytes := [0] }
+private def q1 : Rec := { time := 2, commit := H.leaf [1], bytes := [1] }
+private def q2 : Rec := { time := 5, commit := H.leaf [2], bytes := [2] }
+private def r1 : Rec := { time := 3, commit := H.leaf [3], bytes := [3] }
+
+/-- the interleaved case (device 1's events at times 2 and 5, device 2's at 3): the third call rewinds -/
+example : syncLog [p0, q1, q2] [p0, q1, r1, q2] = ([p0, q1, r1, q2], [p0, q1, r1, q2], .rewound) := by decide
+
 
 private def x0 : Rec := { time := 1, commit := H.leaf [0], bytes := [0] }
 private def u : Rec := { time := 2, commit := H.leaf [1], bytes := [1] }
